@@ -98,7 +98,12 @@ pub(crate) fn feed(dec: Dec, bytes: &[u8], acc: &mut Acc, mut log: Option<&mut S
             match guard(|| $e) {
                 Ok(x) => x,
                 Err(p) => {
-                    acc.viol(format!("decoder-panic:{}", dec.name()), format!("{:?} on input {} panicked: {p}", dec, show()), rp());
+                    let note = if dec == Dec::TokenPayload {
+                        " [input is a token plaintext sealed under the server's own token key: reachable only by a token minted under that key, e.g. by another server version sharing it; token.rs decode_unix_secs adds the u64 seconds to UNIX_EPOCH unchecked]"
+                    } else {
+                        ""
+                    };
+                    acc.viol(format!("decoder-panic:{}", dec.name()), format!("{:?} on input {} panicked: {p}{note}", dec, show()), rp());
                     return;
                 }
             }
@@ -174,16 +179,29 @@ pub(crate) fn feed(dec: Dec, bytes: &[u8], acc: &mut Acc, mut log: Option<&mut S
                         acc.viol("adjacent:tp-differential:value", format!("parameters {}: read gives {p:?}, reference gives {m:?}", show()), rp());
                     }
                 }
-                (Ok(p), TpRead::Err(e)) => acc.viol(
-                    "adjacent:tp-differential:accepts-malformed",
-                    format!("parameters {} are malformed per RFC 9000 §18 ({e}) but TransportParameters::read accepts them as {}", show(), tp::tp_json(p)),
-                    rp(),
-                ),
-                (Err(e), TpRead::Ok(m)) => acc.viol(
-                    "adjacent:tp-differential:rejects-wellformed",
-                    format!("parameters {} are well-formed and legal per RFC 9000 §16/§18 ({m:x?}) but TransportParameters::read fails with {e}", show()),
-                    rp(),
-                ),
+                (Ok(p), TpRead::Err(e)) => {
+                    // name the first parameter whose declared length the reader did not honour
+                    let culprit = match rf::tp_parse(bytes) {
+                        Err(_) => "structure".to_string(),
+                        Ok(list) => list
+                            .iter()
+                            .find(|(id, v)| matches!(rf::tp_read(&rf::tp_unparse(&[(*id, v.clone())]), false), TpRead::Err("malformed parameter value")))
+                            .map_or("legality".to_string(), |(id, _)| format!("{id:#x}")),
+                    };
+                    acc.viol(
+                        format!("adjacent:tp-accepts-malformed:{culprit}"),
+                        format!("parameters {} are malformed per RFC 9000 §18 ({e}) but TransportParameters::read accepts them as {}", show(), tp::tp_json(p)),
+                        rp(),
+                    )
+                }
+                (Err(e), TpRead::Ok(m)) => {
+                    let nonminimal = m.values().any(|v| rf::vi_decode(v).is_some_and(|(x, n)| n == v.len() && rf::vi_size(x) != Some(n)));
+                    acc.viol(
+                        if nonminimal { "adjacent:tp-rejects-nonminimal-varint" } else { "adjacent:tp-rejects-wellformed" },
+                        format!("parameters {} are well-formed and legal per RFC 9000 §16/§18 ({m:x?}) but TransportParameters::read fails with {e}", show()),
+                        rp(),
+                    )
+                }
             }
         }
         Dec::Token => {
@@ -223,6 +241,12 @@ fn feed_all(bytes: &[u8], acc: &mut Acc) {
     }
 }
 
+/// Decoders fed with every 4-byte string (thorough only). The frame decoder only gets the strings
+/// whose first byte is below 0x80 (frame type encoded on one or two bytes): above that the whole
+/// string is a single 4- or 8-byte frame type. No 4-byte string can be a complete packet (header
+/// protection needs four bytes after the packet number offset), so the header decoder is left out.
+const FOUR: [Dec; 3] = [Dec::Frames, Dec::Tp { server: false }, Dec::CidLong];
+
 /// Positions mutated / lengths truncated to: everything for short inputs, both ends for long ones
 fn positions(len: usize) -> Vec<usize> {
     if len <= 128 {
@@ -253,6 +277,10 @@ fn for_each_mutant(orig: &[u8], mut f: impl FnMut(&[u8])) {
 
 enum Job<'a> {
     Strings { len: usize, first: u16 },
+    /// 4-byte strings starting with these two bytes, to the `FOUR` decoders
+    Strings4 { first: u8, second: u8 },
+    /// Small ACK frames on a grid: type, largest, count and first range given; gaps and lengths enumerated
+    AckGrid { ty: u8, largest: u8, count: u8, first_range: u8 },
     PayloadStrings { len: usize, first: u16 },
     Corpus(&'a [(&'static str, Vec<u8>)]),
     TokenPlain(&'a [Vec<u8>]),
@@ -311,6 +339,22 @@ pub fn run(thorough: bool, deadline: Instant, corpus: &[(&'static str, Vec<u8>)]
             n_strings += 1 << (8 * len);
         }
     }
+    if thorough {
+        for first in 0..=255 {
+            for second in 0..=255 {
+                jobs.push(Job::Strings4 { first, second });
+            }
+        }
+    }
+    for ty in [2u8, 3] {
+        for largest in 0..8 {
+            for count in 0..4 {
+                for first_range in 0..8 {
+                    jobs.push(Job::AckGrid { ty, largest, count, first_range });
+                }
+            }
+        }
+    }
     let payload_max = if thorough { 2 } else { 1 };
     for len in 0..=payload_max {
         if len == 0 {
@@ -330,8 +374,41 @@ pub fn run(thorough: bool, deadline: Instant, corpus: &[(&'static str, Vec<u8>)]
     let mut acc = par_chunks(jobs, deadline, |job, acc| match job {
         Job::Strings { len, first } => strings(*len, *first, |s| {
             acc.fast[6] += 1;
-            feed_all(s, acc)
+            acc.distinct_arith += 1;
+            for dec in ALL {
+                feed(dec, s, acc, None);
+            }
         }),
+        Job::Strings4 { first, second } => {
+            let mut s = [*first, *second, 0, 0];
+            for (k, dec) in FOUR.into_iter().enumerate() {
+                if dec == Dec::Frames && *first >= 0x80 {
+                    continue;
+                }
+                let t = Instant::now();
+                for x in 0..=0xffffu16 {
+                    s[2..].copy_from_slice(&x.to_be_bytes());
+                    feed(dec, &s, acc, None);
+                }
+                acc.fast[12 + k] += t.elapsed().as_micros() as u64;
+            }
+            acc.fast[10] += 1 << 16;
+            acc.distinct_arith += 1 << 16;
+        }
+        Job::AckGrid { ty, largest, count, first_range } => {
+            // ty largest delay=0 count first (gap len)(gap len) [ect0 ect1 ce]; bytes past the
+            // declared ranges read as further frames
+            for x in 0..8u32.pow(4) {
+                let g = |k: u32| ((x >> (3 * k)) & 7) as u8;
+                let mut s = vec![*ty, *largest, 0, *count, *first_range, g(0), g(1), g(2), g(3)];
+                if *ty == 3 {
+                    s.extend([1, 2, 3]);
+                }
+                feed(Dec::Frames, &s, acc, None);
+                acc.fast[11] += 1;
+                acc.distinct_arith += 1;
+            }
+        }
         Job::PayloadStrings { len, first } => strings(*len, *first, |s| {
             acc.fast[7] += 1;
             acc.hashes.push(h64(71, s));
@@ -370,7 +447,10 @@ pub fn run(thorough: bool, deadline: Instant, corpus: &[(&'static str, Vec<u8>)]
         "corpus_cap": cap,
         "corpus_note": "valid encodings from parts 3-6 (headers with payloads <= 40 bytes, frames <= 128 bytes, transport parameters, tokens, long-form CIDs), subsampled per kind by taking every j-th; each is mutated at every position (first 96 and last 32 positions if longer than 128 bytes) to 0x00, 0xff, ^0x01, ^0x80 and truncated to every such length; every mutant goes to every decoder",
         "token_plaintexts_mutated": plains.len(),
-        "inputs": {"strings": f[6], "sealed_short_plaintexts": f[7], "corpus_mutants": f[8], "token_plaintext_mutants": f[9]},
+        "four_byte_strings": if thorough { json!({"count": f[10], "decoders": FOUR.iter().map(Dec::json).collect::<Vec<_>>(),
+            "cpu_seconds_per_decoder": (0..FOUR.len()).map(|k| f[12 + k] as f64 / 1e6).collect::<Vec<_>>()}) } else { json!("thorough only") },
+        "ack_grid": format!("{} ACK / ACK_ECN frames: largest, first range, two (gap, length) pairs each 0..8, declared range count 0..4 (so also counts the bytes do not cover), delay 0, to the frame decoder", f[11]),
+        "inputs": {"strings": f[6], "four_byte_strings": f[10], "ack_grid": f[11], "sealed_short_plaintexts": f[7], "corpus_mutants": f[8], "token_plaintext_mutants": f[9]},
         "accepted": {"frames_ok": f[2], "header_ok": f[3], "transport_parameters_ok": f[4], "token_payload_decoded": f[5]},
         "decoders": ALL.iter().map(Dec::json).collect::<Vec<_>>(),
         "oracles": [
@@ -380,7 +460,7 @@ pub fn run(thorough: bool, deadline: Instant, corpus: &[(&'static str, Vec<u8>)]
             "long-form CIDs: decode_long agrees with the reference",
             "transport parameters (reported as adjacent:*): read() and an RFC 9000 §18 reference reader agree on accept/reject and values",
         ],
-        "distinct_note": "distinct = distinct input byte strings, 64-bit hashed",
+        "distinct_note": "distinct = enumerated strings counted arithmetically (pairwise distinct by construction) + distinct mutants, 64-bit hashed",
     });
     acc.finish("totality", detail).0
 }
